@@ -24,7 +24,9 @@ require (
 	github.com/holiman/uint256 v1.2.4 // indirect
 	github.com/iancoleman/orderedmap v0.3.0 // indirect
 	github.com/kr/text v0.2.0 // indirect
+	github.com/petermattis/goid v0.0.0-20231207134359-e60b3f734c67 // indirect
 	github.com/pokt-network/smt v0.9.2 // indirect
+	github.com/sasha-s/go-deadlock v0.3.1 // indirect
 )
 
 replace (
